@@ -276,6 +276,12 @@ def key_of(inv, rec, prev=None):
             rel = rel | {"Probe"}
     notable = sorted(a for a in acts if a in rel)
     where = "+".join(notable) if notable else ("quiesce" if rec.get("kind") in ("quiesce", "final") else "plain")
+    if inv.startswith("C07") and "Signal" not in acts and rec.get("sig_on_make") and rec.get("sigFired"):
+        where = "SignalFromMake" + ("+Probe" if "Probe" in acts else "")
+    if inv == "C09_Quiescent":
+        # a task that never goes idle: the class is which kind of fault preceded it in the schedule
+        kinds = sorted({b.get("a") for b in (rec.get("sched_steps") or []) if b.get("a") in ("Prefix", "ResetConnect", "Garbage")})
+        where = "stalled-after-" + "+".join(kinds) if kinds else "stalled"
     if inv in ("C09_SrvStable", "C09_EndsOnlyOnAllowed") and rec.get("srv") != "running":
         # the serving future ended without an allowed cause: the class is (result, was a connect given up)
         where = "cancelled-connect" if (rec.get("cancelled", 0) > 0 and rec.get("srv") == "erraccept") else "no-allowed-cause"
@@ -325,6 +331,8 @@ def analyse(pid, recs, viols, verdict):
     for sid, (inv, l) in sorted(first.items(), key=lambda x: x[1][1]):
         rec = dict(recs[l - 1])
         rec["tls"] = scheds[sid]["reset"].get("tls")
+        rec["sched_steps"] = scheds[sid]["reset"]["sched"]["steps"]
+        rec["sig_on_make"] = scheds[sid]["reset"]["sched"].get("sig_on_make", 0)
         prev = None
         if l >= 2 and recs[l - 2]["e"] == "Obs":
             prev = dict(recs[l - 2])
